@@ -452,13 +452,13 @@ fn configs(tier: Tier) -> Vec<(M, usize, usize)> {
         ]
     } else {
         vec![
-            (M::new(2, &[1000, 4000], 0), 14, 6_000_000),
-            (M::new(2, &[1000, 999, 4001, 5000], 0), 11, 6_000_000),
-            (M::new(2, &full, 0), 8, 6_000_000),
-            (M::new(3, &[1000, 4000], 0), 10, 6_000_000),
-            (M::new(3, &[1000, 3999, 4001, 5000], 0), 8, 6_000_000),
-            (M::new(2, &[1000, 4000, 5000], 1), 11, 6_000_000),
-            (M::new(3, &[1000, 4000, 5000], 1), 8, 6_000_000),
+            (M::new(2, &[1000, 4000], 0), 14, 3_000_000),
+            (M::new(2, &[1000, 999, 4001, 5000], 0), 11, 3_000_000),
+            (M::new(2, &full, 0), 8, 3_000_000),
+            (M::new(3, &[1000, 4000], 0), 10, 3_000_000),
+            (M::new(3, &[1000, 3999, 4001, 5000], 0), 8, 3_000_000),
+            (M::new(2, &[1000, 4000, 5000], 1), 11, 3_000_000),
+            (M::new(3, &[1000, 4000, 5000], 1), 8, 3_000_000),
         ]
     }
 }
@@ -471,10 +471,17 @@ pub fn run(tier: Tier) -> Report {
     }
     let cfgs = configs(tier);
     let wall = Duration::from_secs(if tier.is_quick() { 35 } else { 1500 });
+    let quick = tier.is_quick();
     let results = engine::par_map(cfgs.len(), 16, |i| {
         let (m, depth, max_states) = &cfgs[i];
         let mut w = m.worker();
-        engine::bfs(m, &mut w, 0, *depth, *max_states, wall)
+        if quick {
+            engine::bfs(m, &mut w, 0, *depth, *max_states, wall)
+        } else {
+            // the deep searches keep paths, not worlds, in their frontier (a frontier of a million real
+            // worlds does not fit into memory)
+            engine::bfs_lowmem(m, &mut w, 0, *depth, *max_states, wall)
+        }
     });
     for (i, r) in results.into_iter().enumerate() {
         let (m, _, _) = &cfgs[i];
